@@ -49,6 +49,15 @@ ColOK(d, mods) == \A i \in FileOf(mods, d.file) :
 Intersects(d, lo, hi) == (d.start < hi /\ lo < d.end) \/ (d.start = d.end /\ lo <= d.start /\ d.start <= hi)
 Covers(ds, fault) == \E x \in 1..Len(ds) : ds[x].code = fault.code /\ Intersects(ds[x], fault.start, fault.end)
 
+\* An offending text that has PARTS (a binary operator whose operands mismatch, errors.md E551: "the types of the left and
+\* right operand of a binary operator do not match"): the diagnostic points at the offender when its span touches the operator
+\* itself, or spans a whole operand of it.  A span elsewhere inside the expression -- on another operator of a chain
+\* `a | b | c`, whose own operands match -- does not cover the offending text.
+Contains(d, lo, hi) == d.start <= lo /\ hi <= d.end
+CoversPart(d, q) == IF q.whole THEN Contains(d, q.start, q.end) ELSE Intersects(d, q.start, q.end)
+CoversParts(ds, fault) == \E x \in 1..Len(ds) : /\ ds[x].code = fault.code
+                                                 /\ \E p \in 1..Len(fault.parts) : CoversPart(ds[x], fault.parts[p])
+
 \* A LAYOUT VARIANT of an input whose diagnostics are known (the same text without its final line break, behind an
 \* extra line, as one line, as the second / third module of a set, twice in one file): the offending text has moved
 \* with the layout, so a diagnostic with the same code is expected in the named file, on the line the text is on now
